@@ -33,7 +33,10 @@ manifest = {
         "enable": "go build -tags verif (the harness in /verif/go is built with the tag against /repo via a replace directive)",
         "baseline_off_cmd": "cd /repo && GOFLAGS=-mod=mod GOPROXY=off go test -json -vet=off -count=1 -timeout 25m ./...",
         "source_commits": HOOK_COMMITS,
-        "add_only": True,
+        # four of the five hook commits only add lines; d7faae8 also REPLACES the type name of eight mutex fields
+        # (sync.Mutex / sync.RWMutex -> verifhook.Mutex / verifhook.RWMutex) and drops two now-unused "sync" imports: without the
+        # tag those names are type aliases of the sync types, so the compiled code is unchanged, but lines were rewritten
+        "add_only": False,
     },
     "engines": [
         {"name": "lean", "path": "/verif/lean", "serves_properties": sorted(PROPS), "kind_free_text": "Lean 4 model (Sth/Model), helper lemmas (Sth/Lemmas), property theorems (Sth/Props), line-protocol driver (Main.lean, Driver/)"},
@@ -42,7 +45,7 @@ manifest = {
     ],
     "checks": checks,
     "not_applicable": [{"property_id": p, "reason": r} for p, r in sorted(NOT_APPLICABLE.items()) if p not in PROPS],
-    "notes": "Technique: machine-checked proof in Lean 4 over a hand-written executable model, tied to /repo on every run by a correspondence check (real Go code vs the model's executable definitions on the same traces) and by facts regenerated from the source. See DESIGN.md.",
+    "notes": "Technique: machine-checked proof in Lean 4 over a hand-written executable model, tied to /repo on every run by a correspondence check (real Go code vs the model's executable definitions on the same traces) and by facts regenerated from the source. See DESIGN.md. Hooks: bc07554, 1cc2f17, da9c99f, 7f9585e add lines only (package store/verifhook, one-line At(...) call sites, verif-only accessor files); d7faae8 replaces the type NAME of eight mutex fields in index, multihash primary, freelist and store by verifhook.Mutex/RWMutex - plain aliases of the sync types unless the verif tag is set, where they make every lock acquisition a scheduling point of the cooperative scheduler - and removes two imports that became unused (hence add_only=false; with the tag off the suite passes and the compiled code is identical).",
 }
 json.dump(manifest, open(os.path.join(VERIF, "MANIFEST.json"), "w"), indent=1)
 print("wrote MANIFEST.json with", len(checks), "checks")
